@@ -911,3 +911,94 @@ mod process_inbound_events_tests;
 #[cfg(test)]
 #[path = "raft_test/raft_comprehensive_tests.rs"]
 mod raft_comprehensive_tests;
+
+// Verification hooks (compiled only with `--cfg d_engine_verif`; add-only, no behaviour change).
+// Single-step access to the event loop of `run()`: each function performs exactly what one loop
+// iteration does for one select arm (P1 tick / P2 internal / P3 client command / P4 inbound) followed
+// by the same three `process_*` calls, so a harness can drive a real `Raft<T>` deterministically.
+#[cfg(d_engine_verif)]
+#[derive(Debug, Clone)]
+pub struct VerifClusterView {
+    pub role: i32,
+    pub term: u64,
+    pub voted_for: Option<VotedFor>,
+    pub commit_index: u64,
+    pub current_leader: Option<u32>,
+    /// (peer, next_index, match_index) for the given peers; empty unless the node is leader
+    pub peers: Vec<(u32, Option<u64>, Option<u64>)>,
+}
+
+#[cfg(d_engine_verif)]
+impl<T> Raft<T>
+where
+    T: TypeConfig,
+{
+    async fn verif_cluster_process(&mut self) -> Result<()> {
+        self.process_internal_events().await?;
+        self.process_client_cmds().await?;
+        self.process_inbound_events().await
+    }
+
+    /// P1 arm: `role.tick(..)` then the three `process_*` calls.
+    pub async fn verif_cluster_tick(&mut self) -> Result<()> {
+        let internal_event_tx = &self.internal_event_tx;
+        let event_tx = &self.event_tx;
+        if let Err(e) = self.role.tick(internal_event_tx, event_tx, &self.ctx).await {
+            error!("tick failed: {:?}", e);
+        }
+        self.verif_cluster_process().await
+    }
+
+    /// P2 arm, if an internal event is pending: receive it, drain the rest, then `process_*`.
+    /// Returns `false` when the internal event queue was empty (nothing done).
+    pub async fn verif_cluster_pump(&mut self) -> Result<bool> {
+        match self.internal_event_rx.try_recv() {
+            Ok(internal_event) => {
+                self.buffered_internal_event.push_back(internal_event);
+                self.drain_internal_events().await?;
+                self.verif_cluster_process().await?;
+                Ok(true)
+            }
+            Err(_) => Ok(false),
+        }
+    }
+
+    /// P3 arm for one client command.
+    pub async fn verif_cluster_cmd(
+        &mut self,
+        cmd: super::ClientCmd,
+    ) -> Result<()> {
+        self.role.push_client_cmd(cmd, &self.ctx);
+        self.verif_cluster_process().await
+    }
+
+    /// P4 arm for one inbound event (as if it were the only one in `event_rx`).
+    pub async fn verif_cluster_inbound(
+        &mut self,
+        inbound_event: InboundEvent,
+    ) -> Result<()> {
+        self.buffered_inbound_event.push_back(inbound_event);
+        self.verif_cluster_process().await
+    }
+
+    /// Read-only view of the observable Raft state.
+    pub fn verif_cluster_observe(
+        &self,
+        peer_ids: &[u32],
+    ) -> VerifClusterView {
+        let st = self.role.state();
+        let is_leader = st.is_leader();
+        VerifClusterView {
+            role: self.role.as_i32(),
+            term: st.current_term(),
+            voted_for: st.voted_for().ok().flatten(),
+            commit_index: st.commit_index(),
+            current_leader: st.shared_state().current_leader(),
+            peers: if is_leader {
+                peer_ids.iter().map(|p| (*p, st.next_index(*p), st.match_index(*p))).collect()
+            } else {
+                Vec::new()
+            },
+        }
+    }
+}
